@@ -326,6 +326,34 @@ def run(ctx) -> None:
             if len(hrets) == 1 and max(ra.slice.value, rb.slice.value) < len(hrets[0].value.elts):
                 nd = neg_diff(hrets[0].value.elts[ra.slice.value], hrets[0].value.elts[rb.slice.value])
         if nd is None and norm(ra) != norm(rb):
+            # both are index look-ups `<rvec>.iR(X)` / `<rvec>.iR(Y)` of plain (possibly negated) local vectors: Y must be −X of the SAME vector
+            def lookup_arg(q_, st_):
+                e_ = q_
+                if isinstance(e_, ast.Name):
+                    d_ = du.single_def(e_.id, cfg.node(st_))
+                    e_ = d_.value if d_ is not None and d_.kind == "assign" and d_.value is not None else e_
+                if isinstance(e_, ast.Call) and isinstance(e_.func, ast.Attribute) and e_.func.attr in ("iR", "index_R", "index") and len(e_.args) == 1:
+                    x_ = e_.args[0]
+                    sg_ = 1
+                    while isinstance(x_, ast.UnaryOp) and isinstance(x_.op, ast.USub):
+                        x_, sg_ = x_.operand, -sg_
+                    if isinstance(x_, ast.Call) and call_name(x_) == "tuple" and len(x_.args) == 1:
+                        x_ = x_.args[0]
+                        while isinstance(x_, ast.UnaryOp) and isinstance(x_.op, ast.USub):
+                            x_, sg_ = x_.operand, -sg_
+                    if isinstance(x_, ast.Name):
+                        return norm(e_.func.value), x_.id, sg_
+                return None
+            la_, lb_ = lookup_arg(qa[0], a), lookup_arg(qb[0], b)
+            if la_ is not None and lb_ is not None and la_[0] == lb_[0]:
+                if la_[1] == lb_[1]:
+                    nd = la_[2] * lb_[2] == -1
+                else:
+                    r3.violation(g, b, f"the forward block is stored at the R-vector `{la_[1]}` but its Hermitian partner at `{'-' if lb_[2] < 0 else ''}{lb_[1]}`, a different "
+                                 f"vector: H_ij(R) and H_ji(−R) are no longer conjugates of each other whenever `{la_[1]}` ≠ `{lb_[1]}` (the imported H(k) is not "
+                                 f"Hermitian or the index of −R does not exist)")
+                    continue
+        if nd is None and norm(ra) != norm(rb):
             raise AnalysisError(f"get_system_tb_py: cannot relate the R indices `{norm1(ra, 90)}` and `{norm1(rb, 90)}` of a hopping block")
         neg_ok = bool(nd)
         swap_ok = (pa[1:] == pb[1:][::-1]) if len(pa) == 3 else (len(pa) == 1 and len(pb) == 1)
